@@ -1,9 +1,11 @@
 (* Props/C12.v — Scheduled checks wait for the policy's time and minimum wait.
    Two parts.  (1) Which timers must have fired before the machine leaves a wait is a theorem about the model's select
    function (firings are inputs of the environment, not actions, so no trace monitor can see them).  (2) "Ask, announce,
-   arm exactly" is the monitor theorem C12_arming_monitor_accepts_every_model_trace.  Not a theorem: that the reboot
-   question is re-asked only on its own timer or an on-demand request (decided by trace equality on the policy / timer
-   projection and, for the on-demand half, by the run-time rule of C11's monitor). *)
+   arm exactly" is the monitor theorem C12_arming_monitor_accepts_every_model_trace.  (3) That the reboot question is
+   re-asked only on its own timer or an on-demand request is again about firings: the theorems C12_reboot_wait_* (end of
+   file) give what one turn of the model's wait loop does for every kind of stimulus, and C12_ping_turn_never_asks shows
+   that the code run by the turns that must not ask (the ping, re-arming its timers) never asks the question.
+   (C11's monitor adds the trace-visible half: an on-demand request is followed by the question before the next ping.) *)
 Require Import Verif.Model.Time Verif.Base.Bytes Verif.Model.Env Verif.Model.SM Verif.Proofs.SMPure.
 Open Scope Z_scope.
 
@@ -62,3 +64,70 @@ Section Examples.
 End Examples.
 
 Print Assumptions C12_arming_monitor_accepts_every_model_trace.
+
+(* ---- (3) while waiting for the reboot, the question is asked only when the reboot timer fires or an on-demand request is seen ----
+   One turn of the wait loop consumes one queued request, else one stimulus.  What each kind of turn does before the loop goes on: *)
+Require Import Verif.Proofs.C12Reask.
+Open Scope N_scope.
+
+(* a ping timer fires: it is consumed; when it was the last one the ping goes out and the ping timers are re-armed *)
+Theorem C12_reboot_wait_ping_timer :
+  forall f src pending m e i k r,
+    c_inq (e_cs e) = [] -> e_stim e = Fire i :: r -> nth_error pending i = Some k -> k <> RReboot ->
+    reboot_loop (S f) src pending m e =
+    (if has_ping_roles (remove_nth i pending) then reboot_loop f src (remove_nth i pending) m
+     else m1 <- ping_omaha m;; mt <- update_next_update_time m1;;
+          (let '(m2, t) := mt in roles <- make_wait t;; reboot_loop f src (remove_nth i pending ++ roles) m2))
+      (set_stim e r (e_ctl e)).
+Proof. exact turn_ping_timer. Qed.
+(* ... and none of that code asks the reboot question: if it was not asked before, it was not asked after *)
+Theorem C12_ping_turn_never_asks :
+  (forall m e, accepts step_noask tt (rev (e_trace e)) = true -> accepts step_noask tt (rev (e_trace (snd (ping_omaha m e)))) = true) /\
+  (forall m e, accepts step_noask tt (rev (e_trace e)) = true -> accepts step_noask tt (rev (e_trace (snd (update_next_update_time m e)))) = true) /\
+  (forall t e, accepts step_noask tt (rev (e_trace e)) = true -> accepts step_noask tt (rev (e_trace (snd (make_wait t e)))) = true).
+Proof.
+  split; [|split]; intros x e; [apply (NM_no_ask _ (NM_ping x))|apply (NM_no_ask _ (NM_update_next x))|apply (NM_no_ask _ (NM_make_wait x))].
+Qed.
+(* a timer that is no longer armed, or the handles being dropped: nothing *)
+Theorem C12_reboot_wait_stale_timer :
+  forall f src pending m e i r, c_inq (e_cs e) = [] -> e_stim e = Fire i :: r -> nth_error pending i = None ->
+    reboot_loop (S f) src pending m e = reboot_loop f src pending m (set_stim e r (e_ctl e)).
+Proof. exact turn_stale_timer. Qed.
+Theorem C12_reboot_wait_drop_handles :
+  forall f src pending m e r, c_inq (e_cs e) = [] -> e_stim e = DropHandles :: r ->
+    reboot_loop (S f) src pending m e = reboot_loop f src pending m (set_stim e r (e_ctl e)).
+Proof. exact turn_drop_handles. Qed.
+(* the reboot timer fires: the question is asked; a refusal re-arms the 30-minute timer *)
+Theorem C12_reboot_wait_reboot_timer :
+  forall f src pending m e i r, c_inq (e_cs e) = [] -> e_stim e = Fire i :: r -> nth_error pending i = Some RReboot ->
+    reboot_loop (S f) src pending m e =
+    (ok <- ask_reboot_allowed src;;
+     if ok then ret m else emit (ATimer (WFor REBOOT_INTERVAL_NS));;; reboot_loop f src (remove_nth i pending ++ [RReboot]) m)
+      (set_stim e r (e_ctl e)).
+Proof. exact turn_reboot_timer. Qed.
+(* a request (arriving now, or sent earlier and still queued): answered AlreadyRunning; only an on-demand one asks *)
+Theorem C12_reboot_wait_request :
+  forall f src pending m e sc r, c_inq (e_cs e) = [] -> e_stim e = Control sc :: r ->
+    reboot_loop (S f) src pending m e =
+    (emit (ARequest (e_ctl e) sc);;; emit (AReply (e_ctl e) AlreadyRunning);;;
+     match sc with
+     | OnDemand => go <- ask_reboot_allowed OnDemand;; if go then ret m else reboot_loop f OnDemand pending m
+     | ScheduledTask => reboot_loop f src pending m
+     end) (set_stim e r (e_ctl e + 1)).
+Proof. exact turn_request. Qed.
+Theorem C12_reboot_wait_queued_request :
+  forall f src pending m e id sc rq, c_inq (e_cs e) = (id, sc) :: rq ->
+    reboot_loop (S f) src pending m e =
+    (emit (AReply id AlreadyRunning);;;
+     match sc with
+     | OnDemand => go <- ask_reboot_allowed OnDemand;; if go then ret m else reboot_loop f OnDemand pending m
+     | ScheduledTask => reboot_loop f src pending m
+     end)
+      (set_cs e {| c_inject := c_inject (e_cs e); c_evn := c_evn (e_cs e); c_inq := rq; c_incheck := c_incheck (e_cs e); c_upg := c_upg (e_cs e) |} (e_ctl e)).
+Proof. exact turn_queued_request. Qed.
+(* the 30-minute interval *)
+Example C12_reboot_interval : REBOOT_INTERVAL_NS = (30 * 60 * 1000000000)%Z. Proof. reflexivity. Qed.
+
+Print Assumptions C12_reboot_wait_ping_timer.
+Print Assumptions C12_ping_turn_never_asks.
+Print Assumptions C12_reboot_wait_request.
